@@ -25,7 +25,7 @@ func (r *rng) intn(n int) int {
 	}
 	return int(r.next() % uint64(n))
 }
-func (r *rng) chance(pct int) bool { return r.intn(100) < pct }
+func (r *rng) chance(pct int) bool    { return r.intn(100) < pct }
 func (r *rng) pick(l []string) string { return l[r.intn(len(l))] }
 
 func ip(i int) *int { return &i }
